@@ -139,7 +139,7 @@ pub fn c30() -> EditDriver {
     EditDriver {
         pid: "C30",
         rule_text: "tape -> G-edit base -> 1-8 additions from {add_global with a constant of any value type (boundary integers, float bit patterns incl. NaN payloads, v128, ref.null, global.get, ref.func), mod_global_init_expr, add_data active/passive with random bytes and offsets, add_local_memory / add_import_memory with random limits, memory64 and shared flags, exports.add_export_func / add_export_mem on returned IDs, interleaved with add_import_func / add local func so that the function index space shifts under ref.func initialisers and exports} -> encode -> validate -> the entity reached through the returned ID (by identity) has exactly the requested type, limits, bytes and initialiser in the decoded output, and everything else is unchanged. Non-trivial: >=2 kinds of additions and >=1 non-integer constant. Distinct = hash(base, history).",
-        alphabet: Alphabet { global_add: true, global_modinit: true, data_add: true, mem_add: true, mem_import_add: true, func_export: true, mem_export: true, func_add: true, func_import_add: true, rich: true, ..Default::default() },
+        alphabet: Alphabet { global_add: true, global_import_add: true, global_modinit: true, data_add: true, mem_add: true, mem_import_add: true, func_export: true, mem_export: true, func_add: true, func_import_add: true, rich: true, ..Default::default() },
         max_ops: 8,
         quick: 60_000,
         thorough: 3_000_000,
